@@ -22,6 +22,22 @@ def _apply(m):
     """-> overlay dict or None if not applicable."""
     root = repo_root()
     overlay = {}
+    if 'rename' in m:
+        # behaviour-preserving rename of locals inside one function (EQUIV mutants)
+        import re
+        p = os.path.join(root, m['file'])
+        with open(p, encoding='utf-8') as f:
+            src = f.read()
+        a = src.find(m['start'])
+        b = src.find(m['end'], a + 1) if a >= 0 else -1
+        if a < 0 or b < 0:
+            return None
+        seg = src[a:b]
+        for o, n in m['rename']:
+            if not re.search(rf'(?<![.\w]){o}\b', seg):
+                return None
+            seg = re.sub(rf'(?<![.\w]){o}\b', n, seg)
+        return {m['file']: src[:a] + seg + src[b:]}
     edits = m.get('edits') or [(m['file'], m['old'], m['new'])]
     for file, old, new in edits:
         src = overlay.get(file)
